@@ -23,6 +23,8 @@ KW = dict(line_start=1, column_start=1, line_stop=1, column_stop=1)
 
 
 def show(stmts: Sequence[G.Stmt]) -> str:
+    if G.is_rich(stmts):
+        return G.show(stmts)
     parts = []
     for out, pers, kind, direct, cl in stmts:
         rhs = "<const>" if kind == "scalar" else " + ".join(direct) if kind == "expr" else \
@@ -57,7 +59,7 @@ def dag_outcome(stmts: Sequence[G.Stmt]) -> Tuple[str, Any]:
         _dag().create_dag(ast)
     except Exception as e:  # noqa: BLE001
         return "error", err_code(e)
-    return "ok", [c.left.value for c in ast.children]
+    return "ok", [c.left.value for c in ast.children if hasattr(c, "left")]
 
 
 # ---------------------------------------------------------------------------------------------------------------------
@@ -188,9 +190,53 @@ def positions() -> Res:
         [("O1", False, "filter", ("DS_1",), ("sc_a", "sc_b")), ("O2", True, "expr", ("O1", "DS_2"), ()),
          ("sc_a", False, "scalar", (), ()), ("sc_b", False, "scalar", (), ())],
     ]
-    for stmts in itertools.chain(extra, family(3)):
+    r = _positions_over(itertools.chain(extra, family(3)))
+    if r[0]:
+        return r
+    r = _positions_over(s for _t, s in G.rich_scripts())
+    if r[0]:
+        return r
+    return False, "dependency records are equal for every written order of every script of the family (sums, filter " \
+        "clauses, scalars; joins with aliases colliding with dataset names, UDO calls, membership, calc clauses)", None
+
+
+def positions_for(attr: str) -> Any:
+    """Search directed at ONE analyzer attribute: first the hand-built scripts that exercise that attribute (rich family:
+    for `alias` a join whose alias equals a dataset produced by another statement plus a later reader, ...), in all
+    written orders; then the whole family."""
+    def search() -> Res:
+        tagged = [s for t, s in G.rich_scripts() if attr in t]
+        r = _positions_over(tagged)
+        if r[0]:
+            return True, f"scripts exercising DAGAnalyzer.{attr}: " + r[1], r[2]
+        return positions()
+    return search
+
+
+def _consequence(first: Sequence[G.Stmt], perm: Sequence[G.Stmt]) -> str:
+    """What the differing records do downstream (create_dag order; structures reported by semantic_analysis)."""
+    out = []
+    try:
+        for p in (first, perm):
+            kind, val = dag_outcome(p)
+            ok = kind == "ok" and G.topological_ok(val, p) if kind == "ok" and sorted(val) == sorted(G.outputs(p)) else False
+            out.append(f"create_dag on [{show(p)}] -> {kind} {val}" + ("" if ok else "  (NOT a dependency order)"))
+        import C12
+        s1, s2 = C12.sem_outcome(first), C12.sem_outcome(perm)
+        if s1 != s2:
+            out.append(f"semantic_analysis differs: {str(s1)[:160]} vs {str(s2)[:160]}")
+    except Exception as e:  # noqa: BLE001
+        out.append(f"(consequence not evaluated: {type(e).__name__}: {e})")
+    return "; ".join(out)
+
+
+def _positions_over(scripts: Any) -> Res:
+    for stmts in scripts:
+        rich = G.is_rich(stmts)
+        want = {s[0]: sorted(G.reads(s)) for s in stmts} if rich else None
         ref: Optional[Dict[str, Any]] = None
         first: Any = None
+        pending: Optional[Res] = None
         for perm in itertools.permutations(stmts):
             try:
                 d = _deps(perm)
@@ -200,12 +246,23 @@ def positions() -> Res:
                 ref, first = d, perm
             elif d != ref:
                 diff = [k for k in ref if ref[k] != d.get(k)]
+                cons = _consequence(first, perm) if rich else ""
                 return True, (f"dependency record of statement {diff[0]} is {ref[diff[0]]} when the script is written "
                               f"[{show(first)}] and {d.get(diff[0])} when it is written [{show(perm)}] "
-                              "(inputs, outputs, persistent, unknown variables)"), \
+                              "(inputs, outputs, persistent, unknown variables)" + (f"; {cons}" if cons else "")), \
                     {"order_1": show(first), "order_2": show(perm), "statement": diff[0],
-                     "record_1": ref[diff[0]], "record_2": d.get(diff[0])}
-    return False, "dependency records are equal for every written order of every script of the family", None
+                     "record_1": ref[diff[0]], "record_2": d.get(diff[0]), "consequence": cons}
+            if want is not None and pending is None:
+                wrong = [k for k in want if k not in d or d[k][0] != want[k]]
+                if wrong:       # reported only when no two written orders differ (that is the better witness)
+                    pending = (True, (f"[{show(perm)}] (and every other written order): the inputs recorded for statement "
+                                      f"{wrong[0]} are {d.get(wrong[0], ('<no record>',))[0]}; the statement reads "
+                                      f"{want[wrong[0]]}"),
+                               {"script": show(perm), "statement": wrong[0],
+                                "recorded": list(d.get(wrong[0], ("<no record>",))[0]), "reads": want[wrong[0]]})
+        if pending is not None:
+            return pending
+    return False, "dependency records are equal for every written order of every script", None
 
 
 def promotion() -> Res:
